@@ -48,10 +48,11 @@ pub fn parse_prefix(kind: CodecKind, data: &[u8]) -> Option<Parsed> {
     let header = c.decode_header(&mut buf).ok()?;
     let header_len = data.len() - buf.remaining();
     let mut p = Parsed { header, header_len, section: None, items: vec![] };
-    if !carries_custom(&p.header.message) {
+    if matches!(p.header.message, Message::Announce) {
         return Some(p);
     }
-    if carries_updates(&p.header.message) && buf.remaining() >= 2 {
+    // the receiver reads a member section off every kind but Broadcast (even TurnUndead, which never carries one when foca sends it)
+    if !matches!(p.header.message, Message::Broadcast) && buf.remaining() >= 2 {
         let n = buf.get_u16();
         let mut ms = Vec::new();
         for _ in 0..n {
@@ -142,4 +143,14 @@ pub fn build_datagram(
         v.extend_from_slice(it);
     }
     v
+}
+
+pub fn decode_member_blob(kind: CodecKind, blob: &[u8]) -> Result<Member<VId>, String> {
+    let mut c = AnyCodec(kind);
+    let mut buf: &[u8] = blob;
+    let m = c.decode_member(&mut buf).map_err(|e| e.to_string())?;
+    if buf.has_remaining() {
+        return Err("trailing bytes".into());
+    }
+    Ok(m)
 }
